@@ -35,11 +35,14 @@ ISA = {
     },
     'instructions': {
         'nop': {'bytecode': {'value': 0xEA, 'size': 8}},
+        # (listed before `ld` and `w`: the extraction pattern tries mnemonics in definition order, and `ld.w` must win over `ld`)
+        'ld.w': {'bytecode': {'value': 0xD, 'size': 4}, 'operands': {'count': 1, 'operand_sets': {'list': ['reg']}}},
         'ld': {'bytecode': {'value': 0xA, 'size': 4}, 'operands': {'count': 2, 'operand_sets': {'list': ['reg', 'imm']}}},
         'ldx': {'bytecode': {'value': 0xB, 'size': 4}, 'operands': {'count': 1, 'operand_sets': {'list': ['mix']}}},
         'l': {'bytecode': {'value': 0xC1, 'size': 8}},
         'mov.b': {'bytecode': {'value': 0xC, 'size': 4}, 'operands': {'count': 1, 'operand_sets': {'list': ['reg']}}},
         'movxb': {'bytecode': {'value': 0xC2, 'size': 8}},
+        'w': {'bytecode': {'value': 0xC3, 'size': 8}},
         'jmp': {'bytecode': {'value': 0x4C, 'size': 8}, 'operands': {'count': 1, 'operand_sets': {'list': ['addr']}}},
     },
     'macros': {'mac': [{'operands': {'count': 2, 'operand_sets': {'list': ['reg', 'imm']}}, 'instructions': ['ld @REG(0), @ARG(1)', 'ldx @ARG(1)']}],
@@ -55,8 +58,8 @@ PROGRAMS = [
     ('ambiguous include', {'main.asm': ' nop\n#include "dup.asm"\n', 'd1/dup.asm': ' .byte 1\n', 'd2/dup.asm': ' .byte 2\n'}, ('d1', 'd2', 'd3')),
     ('include in main dir too', {'main.asm': ' nop\n#include "m.asm"\n', 'm.asm': ' .byte 7\n', 'd1/x.asm': ' .byte 1\n'}, ('d1', 'd2')),
     ('same file in main dir and d1', {'main.asm': ' nop\n#include "m.asm"\n', 'm.asm': ' .byte 7\n', 'd1/m.asm': ' .byte 8\n'}, ('d1', 'd2')),
-    ('joined mnemonics', {'main.asm': 'top: ld a, 5 ldx 7 mov.b b nop l movxb\n ldx bar ldx a ld x, KC\n mac y, KD ma\n jmp top\n'}, ()),
-    ('labels symbols zones', {'main.asm': '#define Q S2\n.memzone zz\nza: .byte Q, KC\n.memzone zy\nzb: .2byte za, zb\n#ifdef S1\n ldx baz\n#endif\n'
+    ('joined mnemonics', {'main.asm': 'top: ld a, 5 ldx 7 mov.b b nop l movxb\n ldx bar ldx a ld x, KC\n mac y, KD ma\n ld.w y\n w\n jmp top\n'}, ()),
+    ('labels symbols zones', {'main.asm': '#define QQ S2\n.memzone zz\nza: .byte QQ, KC\n.memzone zy\nzb: .2byte za, zb\n#ifdef S1\n ldx baz\n#endif\n'
                                           ' .cstr "hi"\n'}, ('d3',)),
     ('nested includes', {'main.asm': '#include "n1.asm"\n nop\n', 'd1/n1.asm': '#include "n2.asm"\n ld b, 2\n', 'd2/n2.asm': ' ldx 9\n'}, ('d2', 'd1')),
     ('missing include', {'main.asm': ' nop\n#include "none.asm"\n'}, ('d1', 'd2')),
